@@ -67,6 +67,10 @@ func (s *Sched) hook(name string, id uint64) {
 	<-g.ch
 }
 
+// Point is a yield point reached from harness code (for example from a wrapping
+// gen.TargetManager): the same parking discipline as a lib.VerifPoint in the code base.
+func (s *Sched) Point(name string, id uint64) { s.hook(name, id) }
+
 // Close deactivates the scheduler and releases everything. It must run (as a
 // defer) BEFORE the node is stopped: teardown calls instrumented code.
 func (s *Sched) Close() {
